@@ -779,6 +779,15 @@ func (r *collection) checkDescriptor(descriptor *Descriptor) error {
 		}
 	}
 
+	// A result object field tagged with both name and group yields a descriptor that
+	// Descriptor.Validate would refuse; it was never validated because it is derived
+	if descriptor.Key != nil && descriptor.Group != "" {
+		return &ValidationError{
+			ServiceType: descriptor.Type,
+			Cause:       fmt.Errorf("descriptor cannot have both key and group set"),
+		}
+	}
+
 	if descriptor.Key != nil || descriptor.Group == "" {
 		if _, exists := r.services[TypeKey{Type: descriptor.Type, Key: descriptor.Key}]; exists {
 			if descriptor.Key == nil {
